@@ -100,6 +100,7 @@ func (w *Writer) Put(rec J) {
 	}
 	if w.f == nil {
 		w.lines = append(w.lines, b)
+		w.n++
 		return
 	}
 	w.w.Write(b)
